@@ -182,7 +182,16 @@ impl Store {
 
     /// Reads and verifies a content-addressed blob, returning its payload.
     fn read_blob(&self, rel: &str) -> Option<Vec<u8>> {
-        let data = fs::read(self.root.join(rel)).ok()?;
+        let path = self.root.join(rel);
+        let data = fs::read(&path).ok()?;
+        // Blobs are content-addressed: a file whose bytes no longer hash to its
+        // name is damaged. Drop it so the next `write_blob` stores it afresh
+        // instead of reusing the bad file.
+        if path.file_stem().and_then(|x| x.to_str()) != Some(content_hash(&data).as_str()) {
+            log::debug!("cache: blob {} fails its content hash, discarding", path.display());
+            let _ = fs::remove_file(&path);
+            return None;
+        }
         let payload = data.strip_prefix(BLOB_MAGIC.as_slice())?;
         let (version, payload) = payload.split_first_chunk::<4>()?;
         if u32::from_le_bytes(*version) != SCHEMA_VERSION {
